@@ -38,7 +38,7 @@ ASSUMPTIONS = [
     "add_commands is not part of histories (C20 owns it)",
 ]
 FLOORS = {
-    "quick": {"history-steps": 40000, "histories": 12000, "baseline-crosschecks": 20,
+    "quick": {"history-steps": 35000, "histories": 12000, "baseline-crosschecks": 20,
               "reuse-histories": 3000, "factory-after-parse": 1000},
     "thorough": {"history-steps": 400000, "histories": 80000, "baseline-crosschecks": 60,
                  "reuse-histories": 30000, "factory-after-parse": 20000},
